@@ -178,6 +178,89 @@ def h_history() -> Union[bool, str]:
     return True
 
 
+REUSE_QUERIES = ["$..v", "$..[?@.v]", "$.items..v", "$..*"]
+
+
+def _nesting(v) -> int:
+    if isinstance(v, dict):
+        return 1 + max([_nesting(x) for x in v.values()] + [0])
+    if isinstance(v, list):
+        return 1 + max([_nesting(x) for x in v] + [0])
+    return 0
+
+
+def h_reuse() -> Union[bool, str]:
+    """A compiled query gives the reference result after ANY earlier use of the same object: complete runs, find_one,
+    partly consumed and abandoned iterators, applications that raised JSONPathRecursionError (limit is a solver variable)."""
+    from jsonpath_rfc9535.exceptions import JSONPathRecursionError
+
+    text = REUSE_QUERIES[P["query"]]
+    L = fresh(int, "limit")
+    from vtools.inst import assume
+
+    assume(2 <= L <= 7)
+
+    class Env(JSONPathEnvironment):
+        pass
+
+    env = Env()
+    env.max_recursion_depth = L
+    c = env.compile(text)
+    ast = ref_parse(text)
+    shallow = {"v": fresh(int, "s0"), "items": [{"v": 1}]}
+    deep = {"v": 0, "items": [[[[[[{"v": fresh(int, "d0")}]]]]]]}  # nesting 8 > every limit in range
+    mid = {"items": [{"v": fresh(int, "m0"), "w": [{"v": 2}]}], "v": 3}  # nesting 5
+    log = []
+    for si in range(P["steps"]):
+        op = hcommon.sym_choice("op%d" % si, 5)
+        doc = (shallow, mid, deep)[hcommon.sym_choice("doc%d" % si, 3)]
+        nest = _nesting(doc["items"] if text.startswith("$.items..") else doc)  # counted from where the descent starts
+        log.append((op, nest))
+        try:
+            if op == 0:
+                got = c.find(doc)
+                if nest > L:
+                    return "%r limit %r: nesting %d completed" % (log, L, nest)
+                r = evalh.check_nodes(got, ref_eval(ast, doc), doc)
+                if r is not True:
+                    return "%r limit %r: %s" % (log, L, r)
+            elif op == 1:
+                one = c.find_one(doc)
+                if nest <= L:
+                    exp = ref_eval(ast, doc)
+                    if (one is None) != (len(exp) == 0) or (one is not None and one.location != exp[0][0]):
+                        return "%r limit %r: find_one differs from the head of the reference result" % (log, L)
+            elif op == 2:
+                it = iter(c.finditer(doc))
+                next(it, None)  # one step, then abandoned
+            elif op == 3:
+                it = iter(c.finditer(doc))
+                next(it, None)
+                next(it, None)
+                del it
+            else:
+                list(c.finditer(doc))
+        except JSONPathRecursionError:
+            # too-deep data (or data whose deep part was reached) may raise; an abandoned iterator need not have reached it
+            if nest <= L:
+                return "%r limit %r: JSONPathRecursionError on data nested %d" % (log, L, nest)
+    # finally: the object must still behave like a freshly compiled query
+    for doc in (shallow, mid):
+        nest = _nesting(doc["items"] if text.startswith("$.items..") else doc)
+        try:
+            got = c.find(doc)
+        except JSONPathRecursionError:
+            if nest <= L:
+                return "%r limit %r: after this history the query raises JSONPathRecursionError on data nested %d" % (log, L, nest)
+            continue
+        if nest > L:
+            return "%r limit %r: nesting %d completed" % (log, L, nest)
+        r = evalh.check_nodes(got, ref_eval(ast, doc), doc)
+        if r is not True:
+            return "%r limit %r: after this history: %s" % (log, L, r)
+    return True
+
+
 _COMPILED: Dict[str, Any] = {}
 
 
@@ -236,7 +319,7 @@ SELFTESTS = []
 
 def obligations(tier: str):
     obls = []
-    t = 600 if tier == "quick" else 3000
+    t = 600 if tier == "quick" else 1200
     obls.append({"id": "history.len1", "func": "h_history", "params": {"steps": 1}, "timeout": t})
     for op in range(6):
         obls.append({"id": "history.len2.op%d" % op, "func": "h_history", "params": {"steps": 2, "ops": [op], "pool": 2 if tier == "quick" else 4}, "timeout": t})
@@ -244,13 +327,16 @@ def obligations(tier: str):
     for o1 in (1, 2):
         for x in range(6):
             for o2 in (1, 2):
-                obls.append({"id": "history.len3.o%d.x%d.o%d" % (o1, x, o2), "func": "h_history", "params": {"steps": 3, "ops": [o1, x, o2], "pool": 2 if tier == "quick" else 4}, "timeout": t if tier == "quick" else 3000})
+                obls.append({"id": "history.len3.o%d.x%d.o%d" % (o1, x, o2), "func": "h_history", "params": {"steps": 3, "ops": [o1, x, o2], "pool": 2 if tier == "quick" else 4}, "timeout": t if tier == "quick" else 1200})
     if tier == "thorough":
         for a_ in range(6):
             for b_ in range(6):
                 if a_ in (1, 2) and False:
                     continue
-                obls.append({"id": "history.len3.all.op%d.op%d" % (a_, b_), "func": "h_history", "params": {"steps": 3, "ops": [a_, b_], "pool": 3}, "timeout": 3000})
+                obls.append({"id": "history.len3.all.op%d.op%d" % (a_, b_), "func": "h_history", "params": {"steps": 3, "ops": [a_, b_], "pool": 3}, "timeout": 1200})
+    for qi in range(len(REUSE_QUERIES)):
+        for steps in ((1, 2) if tier == "quick" else (1, 2, 3)):
+            obls.append({"id": "reuse.q%d.len%d" % (qi, steps), "func": "h_reuse", "params": {"query": qi, "steps": steps}, "timeout": t})
     for qi, q in enumerate(TRUTH):
         if tier == "quick" and qi % 3 != 0:
             continue
